@@ -568,44 +568,44 @@ theorem wellFormed_class_agree (c₁ c₂ : AnyClaim) (w₁ : c₁.wellFormed = 
   | some k₂ =>
   rw [e₁] at w₁; rw [e₂] at w₂
   simp only at w₁ w₂
-  · · congr 1
-      cases c₁ <;> cases c₂ <;> simp only [AnyClaim.effect, reduceCtorEq, AnyClaim.stf.injEq, AnyClaim.bc.injEq,
-        AnyClaim.bcr.injEq, AnyClaim.ste.injEq, AnyClaim.bt.injEq, AnyClaim.osu.injEq] at he
-      · rename_i a b
-        simp only [AnyClaim.valid, MsgSendToFxClaim.valid, MsgSendToFxClaim.validGen, Bool.and_eq_true] at w₁ w₂
-        have e : a.Sender = b.Sender := by simpa [MsgSendToFxClaim.effect] using congrArg MsgSendToFxClaim.Sender he
-        exact isExtAddr_kind_unique w₁.1.1.1.1.1.1.2 (e ▸ w₂.1.1.1.1.1.1.2)
-      · rename_i a b
-        simp only [AnyClaim.valid, MsgBridgeCallClaim.valid, MsgBridgeCallClaim.validGen, Bool.and_eq_true] at w₁ w₂
-        have e : a.Sender = b.Sender := by simpa [MsgBridgeCallClaim.effect] using congrArg MsgBridgeCallClaim.Sender he
-        exact isExtAddr_kind_unique w₁.1.1.1.1.1.1.1.1.2 (e ▸ w₂.1.1.1.1.1.1.1.1.2)
-      · rename_i a b
-        simp only [AnyClaim.valid, MsgBridgeCallResultClaim.valid, MsgBridgeCallResultClaim.validGen, Bool.and_eq_true] at w₁ w₂
-        have e : a.TxOrigin = b.TxOrigin := by
-          simpa [MsgBridgeCallResultClaim.effect] using congrArg MsgBridgeCallResultClaim.TxOrigin he
-        exact isExtAddr_kind_unique w₁.1.2 (e ▸ w₂.1.2)
-      · rename_i a b
-        simp only [AnyClaim.valid, MsgSendToExternalClaim.valid, MsgSendToExternalClaim.validGen, Bool.and_eq_true] at w₁ w₂
-        have e : a.TokenContract = b.TokenContract := by
-          simpa [MsgSendToExternalClaim.effect] using congrArg MsgSendToExternalClaim.TokenContract he
-        exact isExtAddr_kind_unique w₁.1.1.1.2 (e ▸ w₂.1.1.1.2)
-      · rename_i a b
-        simp only [AnyClaim.valid, MsgBridgeTokenClaim.valid, MsgBridgeTokenClaim.validGen, Bool.and_eq_true] at w₁ w₂
-        have e : a.TokenContract = b.TokenContract := by
-          simpa [MsgBridgeTokenClaim.effect] using congrArg MsgBridgeTokenClaim.TokenContract he
-        exact isExtAddr_kind_unique w₁.1.1.1.1.1.1.1.2 (e ▸ w₂.1.1.1.1.1.1.1.2)
-      · rename_i a b
-        simp only [AnyClaim.valid, MsgOracleSetUpdatedClaim.valid, MsgOracleSetUpdatedClaim.validGen, Bool.and_eq_true] at w₁ w₂
-        have e : a.Members = b.Members := by
-          simpa [MsgOracleSetUpdatedClaim.effect] using congrArg MsgOracleSetUpdatedClaim.Members he
-        obtain ⟨⟨⟨⟨_, ne₁⟩, m₁⟩, _⟩, _⟩ := w₁
-        obtain ⟨⟨⟨⟨_, _⟩, m₂⟩, _⟩, _⟩ := w₂
-        rw [← e] at m₂
-        cases hm : a.Members with
-        | nil => simp [hm] at ne₁
-        | cons x r =>
-          simp only [hm, List.all_cons, Bool.and_eq_true] at m₁ m₂
-          exact isExtAddr_kind_unique m₁.1.1 m₂.1.1
+  congr 1
+  cases c₁ <;> cases c₂ <;> simp only [AnyClaim.effect, reduceCtorEq, AnyClaim.stf.injEq, AnyClaim.bc.injEq,
+    AnyClaim.bcr.injEq, AnyClaim.ste.injEq, AnyClaim.bt.injEq, AnyClaim.osu.injEq] at he
+  · rename_i a b
+    simp only [AnyClaim.valid, MsgSendToFxClaim.valid, MsgSendToFxClaim.validGen, Bool.and_eq_true] at w₁ w₂
+    have e : a.Sender = b.Sender := by simpa [MsgSendToFxClaim.effect] using congrArg MsgSendToFxClaim.Sender he
+    exact isExtAddr_kind_unique w₁.1.1.1.1.1.1.2 (e ▸ w₂.1.1.1.1.1.1.2)
+  · rename_i a b
+    simp only [AnyClaim.valid, MsgBridgeCallClaim.valid, MsgBridgeCallClaim.validGen, Bool.and_eq_true] at w₁ w₂
+    have e : a.Sender = b.Sender := by simpa [MsgBridgeCallClaim.effect] using congrArg MsgBridgeCallClaim.Sender he
+    exact isExtAddr_kind_unique w₁.1.1.1.1.1.1.1.1.2 (e ▸ w₂.1.1.1.1.1.1.1.1.2)
+  · rename_i a b
+    simp only [AnyClaim.valid, MsgBridgeCallResultClaim.valid, MsgBridgeCallResultClaim.validGen, Bool.and_eq_true] at w₁ w₂
+    have e : a.TxOrigin = b.TxOrigin := by
+      simpa [MsgBridgeCallResultClaim.effect] using congrArg MsgBridgeCallResultClaim.TxOrigin he
+    exact isExtAddr_kind_unique w₁.1.2 (e ▸ w₂.1.2)
+  · rename_i a b
+    simp only [AnyClaim.valid, MsgSendToExternalClaim.valid, MsgSendToExternalClaim.validGen, Bool.and_eq_true] at w₁ w₂
+    have e : a.TokenContract = b.TokenContract := by
+      simpa [MsgSendToExternalClaim.effect] using congrArg MsgSendToExternalClaim.TokenContract he
+    exact isExtAddr_kind_unique w₁.1.1.1.2 (e ▸ w₂.1.1.1.2)
+  · rename_i a b
+    simp only [AnyClaim.valid, MsgBridgeTokenClaim.valid, MsgBridgeTokenClaim.validGen, Bool.and_eq_true] at w₁ w₂
+    have e : a.TokenContract = b.TokenContract := by
+      simpa [MsgBridgeTokenClaim.effect] using congrArg MsgBridgeTokenClaim.TokenContract he
+    exact isExtAddr_kind_unique w₁.1.1.1.1.1.1.1.2 (e ▸ w₂.1.1.1.1.1.1.1.2)
+  · rename_i a b
+    simp only [AnyClaim.valid, MsgOracleSetUpdatedClaim.valid, MsgOracleSetUpdatedClaim.validGen, Bool.and_eq_true] at w₁ w₂
+    have e : a.Members = b.Members := by
+      simpa [MsgOracleSetUpdatedClaim.effect] using congrArg MsgOracleSetUpdatedClaim.Members he
+    obtain ⟨⟨⟨⟨_, ne₁⟩, m₁⟩, _⟩, _⟩ := w₁
+    obtain ⟨⟨⟨⟨_, _⟩, m₂⟩, _⟩, _⟩ := w₂
+    rw [← e] at m₂
+    cases hm : a.Members with
+    | nil => simp [hm] at ne₁
+    | cons x r =>
+      simp only [hm, List.all_cons, Bool.and_eq_true] at m₁ m₂
+      exact isExtAddr_kind_unique m₁.1.1 m₂.1.1
 
 theorem valid_of_wellFormed {c : AnyClaim} (w : c.wellFormed = true) : ∃ k, c.valid k = true := by
   simp only [AnyClaim.wellFormed] at w
